@@ -10,7 +10,8 @@ EXPLANATION = ("Framing agreement between proto Datagram::write / write_size / r
                "payload offset = len(quic) - len(payload), payload()/Deref slice from that one field); quarter-stream-id conversion on both "
                "sides; size contract max_datagram_size = quinn_max - header_size(session) with send_datagram handing header++payload to quinn "
                "unchanged and a 1:1 error mapping; every subtraction involved is an arithmetic obligation discharged by a guard or a structural "
-               "lemma (suffix / prefix-sum), re-checked on every run; session filter in Driver::receive_datagram; no mutation path (private fields).")
+               "lemma (suffix / prefix-sum), re-checked on every run; session filter in Driver::receive_datagram; no mutation path (private fields)."
+               ' Also: VarInt::size() induces exactly the RFC 9000 partition of the value range (the header size the contract subtracts is the size the encoder writes).')
 NOT_DECIDED = ["loss / reordering / duplication behaviour of QUIC datagrams (quinn)", "quinn's own max_datagram_size contract"]
 TRUSTED = ["rustc MIR incl. overflow assertions (debug profile)", "bytes::Bytes slicing", "quinn::Connection::{max_datagram_size,send_datagram}"]
 
